@@ -207,14 +207,18 @@ def digitsAux : Nat → Nat → List GCh → List GCh
 /-- decimal digits of a number (`"{value:d}"`) -/
 def natDigits (n : Nat) : List GCh := digitsAux (n + 1) n []
 
-def Pad.endsCmt (p : Pad) : Bool :=
-  match p.getLast? with
-  | some (.cmt _) => true
-  | _ => false
+/-- the comment state behind a text: a comment hides everything up to the next line end -/
+def cmtAfter : Bool → List GCh → Bool
+  | c, [] => c
+  | true, x :: xs => cmtAfter (x != .nl) xs
+  | false, x :: xs => cmtAfter (x == .cmt) xs
+
+/-- half_space.py:_ends_in_comment (on the text; Python walks the padding elements in text order, value tokens
+    hold neither comments nor line ends) -/
+def endsInComment (t : List GCh) : Bool := cmtAfter false t
 
 /-- the two `append`s of `_end_trailing_comment` (BLANK_SPACE_CONTINUE = 5) -/
-def Pad.endComment (p : Pad) : Pad :=
-  if p.endsCmt then p ++ [.str [.nl], .str (List.replicate 5 .sp)] else p
+def Pad.endComment (p : Pad) : Pad := p ++ [.str [.nl], .str (List.replicate 5 .sp)]
 
 /-- half_space.py:_end_trailing_comment, part 1: walk down the `_SHIFT` chain; `some` when the last
     dict value of one of them is its `end_pad` (the walk ends there). -/
@@ -227,7 +231,7 @@ def endChain : List Wrap → Option (List Wrap)
 
 /-- half_space.py:_end_trailing_comment, part 2: the last value of the node's dict, recursively. -/
 def endNode : HS → HS
-  | .unit d s c (some v) => .unit d s c (some { v with pad := v.pad.map Pad.endComment })
+  | .unit d s c (some v) => .unit d s c (some { v with pad := some ((v.pad.getD []).endComment) })
   | .unit d s c none => .unit d s c none
   | .compl l (some g) =>
       match g.order.getLast? with
@@ -256,9 +260,11 @@ def endNode : HS → HS
 
 /-- half_space.py:_end_trailing_comment on a link (chain around a child's node) -/
 def endLink (chain : List Wrap) (child : HS) : List Wrap × HS :=
-  match endChain chain with
-  | some c => (c, child)
-  | none => (chain, endNode child)
+  if endsInComment (wrapFmt chain child.fmt) then
+    match endChain chain with
+    | some c => (c, child)
+    | none => (chain, endNode child)
+  else (chain, child)
 
 /-- half_space.py:_has_parentheses (of one `_SHIFT` tree): first item of start_pad is "(", of end_pad ")" -/
 def Wrap.isParens (w : Wrap) : Bool :=
